@@ -5,7 +5,7 @@ HARNESS = "harness/c01_roundtrip.py"
 MODE = "corpus"
 EXPLANATION = ("For every round-trip class of the spec corpus the repository's own generator output is executed symbolically together with the real EoWriter/EoReader: "
                "structure (string lengths, array counts, optional presence, case selection) is value-forked, all leaf values are solver variables over their whole range.")
-BOUNDS = {"quick": "corpus: every wire-unambiguous class of corpus/core plus the units of a VERIF_SEED-chosen sample of the generated pair corpus that the static classifier props/unambiguous.py accepts; strings of length 0 or 1 (fixed-length ones at their length), arrays of 0, 1 or 2 elements (fixed at their length); integers/ordinals/code points over their full range",
+BOUNDS = {"quick": "corpus: every wire-unambiguous class of corpus/core plus the units of a VERIF_SEED-chosen sample of the generated pair corpus that the static classifier props/unambiguous.py accepts; strings of length 0..2 where the class has at most 400 structures (else 0..1; fixed-length ones at their length), arrays of 0, 1 or 2 elements (fixed at their length); integers/ordinals/code points over their full range",
           "thorough": "core corpus plus ALL units of the generated pair corpus that the classifier accepts (about 5,300); per class the richest of (lens<=1,counts<=2) (lens<=2,counts<=2) (lens<=3,counts<=2) (lens<=3,counts<=3) whose structure count stays <= 6000 (the choice is in each job name)"}
 OUTSIDE = "specifications not in the corpus; longer strings and arrays; wire-ambiguous specs (C01's own quantifier excludes them)"
 ASSUMPTIONS = ["validity predicate of C01: cp1252-encodable strings, no y-diaeresis where sanitised or padded, no '~' in encoded strings, present optionals serialize to at least one byte, "
@@ -34,7 +34,7 @@ def jobs(tier):
     types, cls = corpus.classes("roundtrip")
     js = []
     for c in cls:
-        cfg = {"lens": [0, 1], "counts": [0, 1, 2]} if tier == "quick" else corpus.choose_cfg(types, c["instrs"], THOROUGH, 6000)
+        cfg = corpus.choose_cfg(types, c["instrs"], THOROUGH[:2], 400) if tier == "quick" else corpus.choose_cfg(types, c["instrs"], THOROUGH, 6000)
         js.append(dict(name=f"roundtrip[{c['name']},lens={cfg['lens'][-1]},counts={cfg['counts'][-1]}]", fn="roundtrip",
                        args=[corpus.closure(types, c["instrs"]), c, cfg], tree="core", collect_models=2,
                        expect=["deserializer consumes exactly the bytes written"]))
